@@ -591,7 +591,13 @@ func doCheck(id, tier string, keep bool) int {
 	for s := range vios {
 		sigs = append(sigs, s)
 	}
-	sort.Strings(sigs)
+	sort.Slice(sigs, func(i, j int) bool {
+		a, b := vios[sigs[i]], vios[sigs[j]]
+		if len(a.Case) != len(b.Case) {
+			return len(a.Case) < len(b.Case) // simplest case first
+		}
+		return sigs[i] < sigs[j]
+	})
 	var confirmed []*Violation
 	unrepro := 0
 	maxConfirm := 12
